@@ -348,10 +348,11 @@ fn explore_key(seed: u64, steps: usize, nkeys: i32) -> Result<(), String> {
     }
     let want: Vec<i32> = { let mut v: Vec<_> = model.iter().cloned().filter(|e| e.1 > time).collect(); v.sort(); v.iter().map(|e| e.2).collect() };
     h!(hist, "into_ordered_vec(t={}); ", time);
+    let stored = key_tree_wf(&t).unwrap_or(model.len()); // entries physically stored when the export starts
     let a = t.into_ordered_vec(time); let b = l.into_ordered_vec(time);
     if a != want { return Err(format!("[C07] {}-> tree {:?} expected {:?}", hist, a, want)); }
     if b != want { return Err(format!("[C07,C13] {}-> list {:?} expected {:?}", hist, b, want)); }
-    if a.capacity() > 2 * model.len() + 8 { return Err(format!("[C19] {}-> export capacity {} for {} entries", hist, a.capacity(), model.len())); }
+    if a.capacity() > 2 * stored + 8 { return Err(format!("[C19] {}-> export capacity {} for {} stored entries", hist, a.capacity(), stored)); }
     if let Some(m) = inv_fail { return Err(m); }
     Ok(())
 }
@@ -508,9 +509,9 @@ fn explore_seg(seed: u64, steps: usize) -> Result<(), String> {
     use i_tree::seg::exp::{SegExpCollection, SegRange};
     use i_tree::seg::tree::SegExpTree;
     let mut rng = Rng(seed.wrapping_mul(0x9E3779B97F4A7C15) | 1);
-    let domains: [(i32, i32); 5] = [(0, 31), (-16, 15), (0, 127), (-1000, 2000), (5, 21)];
-    let (lo, hi) = domains[(seed % 5) as usize];
-    let mut t = match SegExpTree::<i32, i32, XV>::new(SegRange { min: lo, max: hi }) { Some(t) => t, None => return Err(format!("new([{},{}]) refused", lo, hi)) };
+    let domains: [(i32, i32); 8] = [(0, 31), (-16, 15), (0, 127), (-1000, 2000), (5, 21), (0, 128), (-7, 25), (100, 1124)];
+    let (lo, hi) = domains[(seed % 8) as usize];
+    let mut t = match SegExpTree::<i32, i32, XV>::new(SegRange { min: lo, max: hi }) { Some(t) => t, None => return Err(format!("[C14] new([{},{}]) refused a domain of {} points", lo, hi, hi - lo + 1)) };
     let len = (hi - lo + 1) as i64;
     let mut scale = 0; while (32i64 << scale) < len { scale += 1; }
     let bucket = |x: i32| -> i32 { ((x - lo) as i64 >> scale) as i32 };
@@ -552,13 +553,38 @@ fn explore_seg(seed: u64, steps: usize) -> Result<(), String> {
     Ok(())
 }
 
+// C19 / C07 / C11 on large trees: bulk insertion (ascending, descending, shuffled), optional mass expiry, export
+fn explore_key_bulk(seed: u64) -> Result<(), String> {
+    let sizes = [70usize, 200, 1000, 5000, 20000];
+    let n = sizes[(seed as usize / 3) % sizes.len()];
+    let order = seed % 3;
+    let mut rng = Rng(seed.wrapping_mul(0x9E3779B97F4A7C15) | 1);
+    let mut keys: Vec<i32> = (0..n as i32).collect();
+    if order == 1 { keys.reverse(); }
+    if order == 2 { for i in (1..keys.len()).rev() { let j = rng.below(i as u64 + 1) as usize; keys.swap(i, j); } }
+    for expire in [false, true] {
+        let mut t = KeyExpTree::<KK, i32, i32>::new(if seed % 2 == 0 { 0 } else { 16 });
+        let hist = format!("bulk: {} keys ({}) with expiration 10 inserted at t=0{}; ", n, ["ascending", "descending", "shuffled"][order as usize], if expire { ", then insert(k=-1,exp=100) at t=20" } else { "" });
+        note(&hist);
+        for k in keys.iter() { t.insert(KK(*k, 10), *k + 7, 0); }
+        let time = if expire { t.insert(KK(-1, 100), 6, 20); 20 } else { 5 };
+        let stored = match key_tree_wf(&t) { Ok(c) => c, Err(e) => return Err(format!("[C02,C11] {}-> invariant broken: {}", hist, e)) };
+        if t.store.buffer.len() > 4 * (n + 1) + 64 { return Err(format!("[C11] {}-> {} slots allocated for a peak of {} entries", hist, t.store.buffer.len(), n + 1)); }
+        let want: Vec<i32> = if expire { vec![6] } else { (0..n as i32).map(|k| k + 7).collect() };
+        let a = t.into_ordered_vec(time);
+        if a != want { return Err(format!("[C07] {}into_ordered_vec(t={}) -> {} values, first {:?}; expected {} values", hist, time, a.len(), a.first(), want.len())); }
+        if a.capacity() > 2 * stored + 8 { return Err(format!("[C19] {}into_ordered_vec(t={}) -> export capacity {} for {} stored entries", hist, time, a.capacity(), stored)); }
+    }
+    Ok(())
+}
+
 fn explore(which: &str, seeds: u64, steps: usize) -> Result<u64, String> {
     let past = PAST_INV.load(std::sync::atomic::Ordering::Relaxed);
     let mut first_inv: Option<String> = None;
     for seed in 1..=seeds {
         let nkeys = if seed % 4 == 0 { 40 } else { 8 };
         let r = match which {
-            "key" => explore_key(seed, steps, nkeys),
+            "key" => if seed <= 15 { explore_key_bulk(seed).and_then(|_| explore_key(seed, steps, nkeys)) } else { explore_key(seed, steps, nkeys) },
             "map" => explore_map(seed, steps, nkeys),
             "set" => explore_set(seed, steps, nkeys),
             "seg" => explore_seg(seed, steps),
